@@ -161,13 +161,13 @@ class MinEngine:
                 # replacements in one call, later cuts computed on the structure that earlier ones changed
                 n = rng.choice((2, 3, 3, 4))
                 g = rng.randint(9, 18)
-                net = gennet.random_net(rng, n, g, list(SUPPORTED), arity, rng.choice(('plain', 'digits')),
+                net = gennet.random_net(rng, n, g, list(SUPPORTED), arity, rng.choice(('plain', 'digits', 'plain', 'digits', 'lookalike')),
                                         n_outputs=rng.choice((1, 2, 3)), locality=rng.choice((0.6, 0.8, 0.9)))
                 st.bump('dense-circuit')
             else:
                 n = weighted_choice(rng, [(2, 3), (3, 5), (4, 4), (5, 2), (6, 1)])
                 g = weighted_choice(rng, [(rng.randint(3, 8), 6), (rng.randint(9, 14), 3), (rng.randint(15, 25), 1)])
-                net = gennet.random_net(rng, n, g, list(SUPPORTED), arity, rng.choice(('plain', 'digits')),
+                net = gennet.random_net(rng, n, g, list(SUPPORTED), arity, rng.choice(('plain', 'digits', 'plain', 'digits', 'lookalike')),
                                         n_outputs=rng.choice((1, 1, 2, 2, 3)), locality=rng.choice((0.0, 0.5, 0.8)))
             if not net.outputs:
                 return
